@@ -66,6 +66,11 @@ _OOO_NAMESPACES = {
 }
 _NUMBER_COLUMNS_REPEATED = "{" + _OOO_NAMESPACES["table"] + "}number-columns-repeated"
 _NUMBER_ROWS_REPEATED = "{" + _OOO_NAMESPACES["table"] + "}number-rows-repeated"
+_TABLE_ROW = "{" + _OOO_NAMESPACES["table"] + "}table-row"
+#: Elements of a ``table:table`` that can contain ``table:table-row`` elements (or again such elements).
+_TABLE_ROW_CONTAINERS = tuple(
+    "{" + _OOO_NAMESPACES["table"] + "}" + name for name in ("table-header-rows", "table-row-group", "table-rows")
+)
 _TEXT_C = "{" + _OOO_NAMESPACES["text"] + "}c"
 _TEXT_LINE_BREAK = "{" + _OOO_NAMESPACES["text"] + "}line-break"
 _TEXT_S = "{" + _OOO_NAMESPACES["text"] + "}s"
@@ -253,6 +258,19 @@ def _ods_element_text(element, location):
     return result
 
 
+def _ods_table_rows(element):
+    """
+    The ``table:table-row`` elements of ``element`` in document order including
+    the ones collected in header rows ("rows to repeat") and row groups.
+    """
+    for child in element:
+        if child.tag == _TABLE_ROW:
+            yield child
+        elif child.tag in _TABLE_ROW_CONTAINERS:
+            for table_row in _ods_table_rows(child):
+                yield table_row
+
+
 def ods_rows(source_ods_path, sheet=1):
     """
     Rows stored in ODS document ``source_ods_path`` in ``sheet``.
@@ -301,7 +319,7 @@ def ods_rows(source_ods_path, sheet=1):
     location = errors.Location(source_ods_path, has_cell=True, has_sheet=True)
     for _ in range(sheet - 1):
         location.advance_sheet()
-    table_rows = list(_findall(table_element, "table:table-row", namespaces=_OOO_NAMESPACES))
+    table_rows = list(_ods_table_rows(table_element))
     for table_row_index, table_row in enumerate(table_rows):
         repeated_rows_text = table_row.attrib.get(_NUMBER_ROWS_REPEATED, "1")
         try:
